@@ -69,6 +69,9 @@ pub struct JResult {
     /// the worker gave an execution up in the middle of a panic and must be replaced
     #[serde(default)]
     pub tainted: bool,
+    /// a tainted worker that stopped in the middle of its subtree: what is left of it
+    #[serde(default)]
+    pub resume: Option<Vec<Vec<u16>>>,
     /// probe only: alternatives at each choice point beyond the prefix
     pub ns: Vec<u16>,
     /// probe only: the recorded call history of that execution
@@ -94,6 +97,7 @@ impl JResult {
             dev: r.max_deviations,
             max_load: r.max_load.clone(),
             tainted: false,
+            resume: r.resume.clone(),
             ns: Vec::new(),
             history: Vec::new(),
         }
@@ -183,6 +187,8 @@ pub fn model_name(m: rt::Model) -> &'static str {
     match m {
         rt::Model::M1 => "m1",
         rt::Model::M2 => "m2",
+        rt::Model::M3 => "m3",
+        rt::Model::M3L => "m3l",
         rt::Model::Sc => "sc",
     }
 }
@@ -357,7 +363,13 @@ struct Shared {
     merged: Mutex<Merged>,
     errors: Mutex<Vec<String>>,
     tasks_done: AtomicUsize,
+    /// workers replaced because an execution panicked without deciding the property
+    restarts: AtomicUsize,
 }
+
+/// Each restart costs a process; beyond this many panicking executions the instance is given up
+/// (machinery error, not a verdict).
+const MAX_RESTARTS: usize = 2000;
 
 struct WorkerProc {
     note: String,
@@ -475,6 +487,7 @@ pub fn run_sharded(inst_name: &str, cfg: &rt::Config, opts: &ShardOpts) -> Merge
         merged: Mutex::new(Merged::default()),
         errors: Mutex::new(Vec::new()),
         tasks_done: AtomicUsize::new(0),
+        restarts: AtomicUsize::new(0),
     });
     shared.queue.lock().unwrap().0.push_back(Task { kind: TaskKind::Probe, prefix: vec![], level: 0 });
     let mut handles = Vec::new();
@@ -586,9 +599,25 @@ pub fn run_sharded(inst_name: &str, cfg: &rt::Config, opts: &ShardOpts) -> Merge
                             for (_, v) in r.known_hits.iter_mut() {
                                 verify(v);
                             }
-                            if r.deciding.is_none() {
-                                // a panic that does not decide this property: the rest of this subtree
-                                // cannot be explored by the dead worker
+                            if r.deciding.is_none() && matches!(task.kind, TaskKind::Explore) && r.resume.is_some() {
+                                // A panic that does not decide this property (it is counted under
+                                // the property it belongs to): fresh workers take over what is left
+                                // of the subtree.
+                                let restarts = shared.restarts.fetch_add(1, Ordering::SeqCst) + 1;
+                                if restarts > MAX_RESTARTS {
+                                    shared.errors.lock().unwrap().push(format!(
+                                        "more than {} executions of {} panicked (other property: {:?}); giving the exploration up",
+                                        MAX_RESTARTS,
+                                        inst_name,
+                                        r.others.keys().collect::<Vec<_>>()
+                                    ));
+                                } else {
+                                    for p in r.resume.take().unwrap() {
+                                        new_tasks.push(Task { kind: TaskKind::Explore, prefix: p, level: task.level });
+                                    }
+                                }
+                            } else if r.deciding.is_none() && !matches!(task.kind, TaskKind::Probe) {
+                                // the rest of this subtree cannot be explored by the dead worker
                                 shared.errors.lock().unwrap().push(format!(
                                     "an execution of {} panicked (other property: {:?}); the subtree {}{} was not completed",
                                     inst_name,
